@@ -1,6 +1,6 @@
 (* FaultExamples.v -- concrete histories with injected I/O errors (definitions
    only) used as non-vacuity examples by Props/C10.v. *)
-From RW Require Import Base.Bytes Fmt.Codec Fmt.Frame Wal.Model Wal.Spec Wal.Hist Wal.FaultHist Wal.CrashExamples Gen.Constants.
+From RW Require Import Base.Bytes Fmt.Codec Fmt.Frame Wal.Model Wal.Spec Wal.Hist Wal.FaultHist Wal.CrashExamples Wal.ModelOld Gen.Constants.
 Open Scope N_scope.
 
 (* a call with a counted fault only *)
@@ -96,6 +96,44 @@ Definition fh_rotate_create_leaves : list fstep :=
    FOp (Some 1%nat) fx_leaves (OStore [ex_log 3 1]);
    FO None (OStore [ex_log 3 1]); FO None OLast;
    FRestart; FO None (OStore [ex_log 3 1]); FO None OLast; FO None (OGet 3)].
+
+(* I: a metadata commit that reports a failure but has reached the disk (finding F4).
+   Two appends fill and seal segment 1; the DeleteRange waits for the rotation (commit,
+   create: the empty tail segment 2) and then truncates entry 2: segment 2 is dropped as a
+   whole, nothing is force-sealed; its commit (3rd action of the call) fails and lands.
+   The WAL refuses the next StoreLogs; the next Open finds the truncation done *)
+Definition fx_lands : fxmode := {| fx_del := false; fx_list := false; fx_leave := false; fx_land := true |}.
+Definition fh_commit_lands : list fstep :=
+  [FO None (OStore [ex_log 1 1]); FO None (OStore [ex_log 2 1]);
+   FOp (Some 2%nat) fx_lands (ODelete 2 2);
+   FO None (OStore [ex_log 3 1]); FO None OLast; FO None (OGet 2);
+   FO None OReopen; FO None OLast; FO None (OStore [ex_log 2 7]); FO None (OGet 2)].
+
+(* I': a stable Set whose transaction fails and lands: readers see the new value *)
+Definition fh_set_lands : list fstep :=
+  [FO None (OSet [107] [1] false); FOp (Some 0%nat) fx_lands (OSet [107] [2] false); FO None (OGetS [107]);
+   FRestart; FO None (OGetS [107])].
+
+(* I'': the same history as I on the code before the repair (mutate_gen_old: the failed
+   commit is taken for a commit that did not happen): the state after the two appends and
+   the rotation, the truncation with the commit that fails and lands, StoreLogs [3], Open *)
+Definition old_f4_run (c : cfg) : result * bool * result * N * N :=
+  match initial c with
+  | None => (RErrOther, false, RErrOther, 0, 0)
+  | Some s0 =>
+      let h := fault_run c (fault_init s0) [FO None (OStore [ex_log 1 1]); FO None (OStore [ex_log 2 1])] in
+      let s1 := settle c (fs_s h) in
+      let e1 := ss_env s1 in
+      let '(r2, w2, e2) := truncate_tail_old c (ss_wal s1) 1
+                             {| e_acts := e_acts e1; e_disk := e_disk e1; e_fault := Some 0%nat; e_fx := fx_lands; e_m := e_m e1 |} in
+      let '(r3, w3, e3) := store_logs c w2 [ex_log 3 1]
+                             {| e_acts := e_acts e2; e_disk := e_disk e2; e_fault := None; e_fx := fx_none; e_m := e_m e2 |} in
+      let last_before := last_index (st_segs w3) (st_tail w3) in
+      match open_wal c {| e_acts := e_acts e3; e_disk := adopt_disk (e_disk e3); e_fault := None; e_fx := fx_none; e_m := e_m e3 |} with
+      | (OOk w4, _) => (r2, st_failed w2, r3, last_before, last_index (st_segs w4) (st_tail w4))
+      | (OErr _, _) => (r2, st_failed w2, r3, last_before, 0)
+      end
+  end.
 
 Definition fault_final (c : cfg) (steps : list fstep) : fstate :=
   match initial c with
